@@ -313,13 +313,16 @@ def judge(ctx, R, notes, o, ret, rerun_sorted=None):
             return probs
         # the index rows designate exactly the cells of the roll
         ctx.check()
-        paint = {}
+        paint, painters = {}, {}
         for (r, a, b_, p), n in zip(lib, notes):
             if 0 <= r < rows:
                 v = 1 if binary1 else n[3]
                 for j in range(a, a + 1 if o.get("onset_only") else b_):
                     paint[(r, j)] = max(paint.get((r, j), 0), v)
+                    painters.setdefault((r, j), []).append(v)
         key = "idx-rows-do-not-designate-the-cells"
+        if set(paint) == set(got) and all(len(painters[k]) >= 2 and got[k] in painters[k] for k in paint if paint[k] != got[k]):
+            key = "collision-not-maximum"
         if set(paint) == set(got) and paint != got and not binary1 and not strictly_increasing(notes):
             # hypothesis (for the key only): the velocity column stayed in input order while the notes were put in onset order
             order = sorted(range(len(notes)), key=lambda i: notes[i][1])
